@@ -126,10 +126,11 @@ theorem connected_after_connect (h : Bytes) (p : Nat) (c : Option (Bytes × Byte
   rcases hcn rfl with hcn | ⟨t, hmem⟩
   · exact hcn
   · exfalso
-    have he : evs0 = [.ctlConnect h p] ++ w0.observers.map (fun o => Ev.obsConnected o h p) ++ evs := by
+    have he : evs0 = (if w0.connected then [.ctlClose] else []) ++ [.ctlConnect h p] ++
+        w0.observers.map (fun o => Ev.obsConnected o h p) ++ evs := by
       have := ht0.symm.trans ht
       simp only [openW, List.append_assoc] at this
-      exact List.append_cancel_left this
+      simpa only [List.append_assoc] using List.append_cancel_left this
     have : (⟨421, t⟩ : Reply) ∈ received evs0 := by
       rw [he, CtlL.received_append]
       refine List.mem_append_right _ ?_
